@@ -24,6 +24,7 @@ type c15Case struct {
 	CType  string `json:"ctype"` // "" = header absent
 	Body   string `json:"body"`
 	Query  string `json:"query"` // raw query string without '?'
+	Ptr    bool   `json:"ptr,omitempty"` // the schema is z.Ptr(z.Struct(...)): "the record may not exist"
 }
 
 type c15Dest struct {
@@ -104,7 +105,15 @@ func propC15(c c15Case) hh.Verdict {
 	var pan any
 	func() {
 		defer func() { pan = recover() }()
-		errs = schema.Parse(zhttp.Request(req), &dest)
+		if c.Ptr {
+			dp := &dest
+			errs = z.Ptr(schema).Parse(zhttp.Request(req), &dp)
+			if dp != &dest {
+				pan = "the pointer schema replaced a non-nil destination pointer"
+			}
+		} else {
+			errs = schema.Parse(zhttp.Request(req), &dest)
+		}
 	}()
 	if pan != nil {
 		return hh.Fail("panic: %v", pan)
@@ -170,6 +179,21 @@ func propC15(c c15Case) hh.Verdict {
 				rec2[strings.TrimSuffix(k, "[]")] = pv
 			}
 		}
+	}
+	if c.Ptr && source == "json" && decodeFail == "" && len(rec2) == 0 {
+		// an empty object under a pointer root: the record does not exist (pinned by the repository's tests):
+		// no issue, schema not run, destination untouched
+		for f, r := range raws {
+			if r.called {
+				return hh.Fail("{} under Ptr(Struct): the schema ran (coercer of %q was called)", f)
+			}
+		}
+		if errs != nil || !reflect.DeepEqual(dest, sentinel) {
+			return hh.Fail("{} under Ptr(Struct): expected no issues and an untouched destination, got %v / %+v", z.Issues.SanitizeMap(errs), dest)
+		}
+		v.Classes = append(v.Classes, "empty-object-under-pointer")
+		v.Nontrivial = true
+		return v
 	}
 	if decodeFail != "" {
 		v.Classes = append(v.Classes, "decode-failure")
@@ -289,10 +313,21 @@ func TestC15(t *testing.T) {
 			}
 		}
 	}, propC15)
+	hh.Enumerate(h, "dispatch-product-pointer-root", func(yield func(c15Case)) {
+		for _, m := range c15Methods {
+			for _, ct := range []string{"", "application/json", "application/json; charset=utf-8", "application/x-www-form-urlencoded", "text/plain"} {
+				for _, b := range c15Bodies {
+					for _, q := range []string{"", "name=Q-name&tags%5B%5D=Q1", "opt=Q-opt"} {
+						yield(c15Case{Method: m, CType: ct, Body: b, Query: q, Ptr: true})
+					}
+				}
+			}
+		}
+	}, propC15)
 	frag := []string{"name", "tags%5B%5D", "tags[]", "opt", "list", "=", "&", "Q1", "B2", "%zz", "%20", "+", ";", "x"}
 	jfrag := []string{"{", "}", `"name"`, `"tags"`, ":", ",", `"J"`, "[", "]", "null", "1", " ", `"opt"`, `"list"`}
 	hh.Sub(h, "random-requests", h.N(15000, 100000), func(rt *rapid.T) c15Case {
-		c := c15Case{Method: rapid.SampledFrom(c15Methods).Draw(rt, "m"), CType: rapid.SampledFrom(c15CTypes).Draw(rt, "ct")}
+		c := c15Case{Method: rapid.SampledFrom(c15Methods).Draw(rt, "m"), CType: rapid.SampledFrom(c15CTypes).Draw(rt, "ct"), Ptr: rapid.IntRange(0, 3).Draw(rt, "ptr") == 0}
 		if rapid.Bool().Draw(rt, "jsonbody") {
 			if rapid.Bool().Draw(rt, "fixed") {
 				c.Body = rapid.SampledFrom(c15Bodies).Draw(rt, "b")
